@@ -14,6 +14,8 @@ ID = "C01"
 def judge(case):
     setup = traces.Setup(case)
     st, pm = setup.run()
+    if st == "raise" and traces.is_slow(pm):
+        return core.result("not-judged:slow-flux-calculation", nontrivial=False)
     if st == "raise":
         verdict, why, j = traces.justify_raise(setup, pm)
         if verdict == "unjustified":
